@@ -54,7 +54,6 @@ Definition admissible (mn : mnem) (prm : list R) : Prop :=
       end
   | M_K_X | M_K_Y | M_K_Z => 0 <= nth 3 prm 0
   | M_KX | M_KY | M_KZ => 0 <= nth 1 prm 0
-  | M_SQ => nth 6 prm 0 <= 0
   | M_X | M_Y | M_Z =>
       match prm with
       | [x1; r1; x2; r2] => x1 = x2 \/ r1 = r2 \/ (0 <= r1 /\ 0 <= r2)
@@ -132,7 +131,7 @@ Proof.
   - peel H; cbn in Ha.
     + ksel H Ha (kz_locus_sense r r0 Ha) kz_sheet_locus_sense.
     + ksel H Ha (kz_sheet0_locus_sense r r0 Ha) kz_sheet_locus_sense.
-  - (* SQ *) peel H. cbn in Ha. two H sq_locus_sense. exact Ha.
+  - (* SQ *) peel H. two H sq_locus_sense.
   - peel H. two H gq_locus_sense.
   - peel H. two H tx_locus_sense.
   - peel H. two H ty_locus_sense.
